@@ -556,6 +556,48 @@ def run(ctx):
     models.append(({"globals": [], "templates": [], "system": [], "processes": [], "chains": [], "xml": dyn_xml}, Gen(r)))
     qmeta["q%d" % (len(models) - 1)] = ([q for q, _ in dyn_q], [("IDTYPES", "y", t) for _, t in dyn_q])
     qcases.append(("q%d" % (len(models) - 1), dyn_xml, "\n".join(q for q, _ in dyn_q)))
+    # names that are keyword tokens in the query syntax and admitted again as identifiers (NonTypeId of parser.y: sup inf bounds simulation
+    # and the one-letter tokens): in a query each must bind to its own declaration, globally and as a member of a process
+    kw_names = ["sup", "inf", "bounds", "simulation", "A", "U", "W", "R", "E", "M"]
+    kw_xml = ('<?xml version="1.0" encoding="utf-8"?><nta><declaration>%s</declaration><template><name>T</name><declaration>%s</declaration>'
+              '<location id="id0"><name>S</name></location><init ref="id0"/></template><system>P = T(); system P;</system></nta>'
+              % (" ".join("int[0,%d] %s;" % (11 + i, nm) for i, nm in enumerate(kw_names)),
+                 " ".join("int[0,%d] %s;" % (31 + i, nm) for i, nm in enumerate(kw_names))))
+    kq, kexp = [], []
+    for i, nm in enumerate(kw_names):
+        kq += ["E<> %s >= 0" % nm, "E<> P.%s >= 0" % nm, "E<> P.%s + %s >= %s" % (nm, nm, kw_names[(i + 1) % len(kw_names)])]
+        kexp += [("ID", nm, 11 + i), ("DOT", "P", nm, 31 + i), ("DOT", "P", nm, 31 + i)]
+    models.append(({"globals": [], "templates": [], "system": [], "processes": [], "chains": [], "xml": kw_xml}, Gen(r)))
+    qmeta["q%d" % (len(models) - 1)] = (kq, kexp)
+    qcases.append(("q%d" % (len(models) - 1), kw_xml, "\n".join(kq)))
+    # members whose type is a NAMED type (typedef, record) that mentions a template parameter: the argument is substituted there too
+    td_xml = ('<?xml version="1.0" encoding="utf-8"?><nta><declaration>int gz;</declaration><template><name>T</name>'
+              '<parameter>const int[0,9] p, const int[0,9] q</parameter><declaration>typedef int[0,p] idx_t; idx_t yd0; typedef int[0,q] jdx_t; jdx_t ye0[2]; '
+              'typedef struct { int[0,p] f; idx_t g; } rec_t; rec_t yr; int[0,q] yb[idx_t];</declaration>'
+              '<location id="id0"><name>L</name></location><init ref="id0"/></template>'
+              '<system>P5 = T(5, 3); P7 = T(7, 2); Q(const int[0,9] m) = T(m, 4); R = Q(6); system P5, P7, R;</system></nta>')
+    tq, texp = [], []
+    for pn, pa, qa in (("P5", 5, 3), ("P7", 7, 2), ("R", 6, 4)):
+        tq += ["E<> %s.yd0 >= 0" % pn, "E<> %s.ye0[1] >= 0" % pn, "E<> %s.yr.f >= 0" % pn, "E<> %s.yr.g >= 0" % pn, "E<> %s.yb[0] >= 0" % pn]
+        texp += [("DOTSUBST", pn, "yd0", pa), ("DOTSUBST", pn, "ye0", qa), ("DOTSUBST", pn, "yr", pa), ("DOTSUBST", pn, "yr", pa),
+                 ("DOTSUBST", pn, "yb", qa)]
+    models.append(({"globals": [], "templates": [], "system": [], "processes": [], "chains": [], "xml": td_xml}, Gen(r)))
+    qmeta["q%d" % (len(models) - 1)] = (tq, texp)
+    qcases.append(("q%d" % (len(models) - 1), td_xml, "\n".join(tq)))
+    # identifiers at the length limit of the lexer (MAXLEN - 1 characters): a longer name is reported, never silently cut to a declared one
+    try:
+        limit = int(re.search(r"MAXLEN\s*=\s*(\d+)", open(os.path.join(core.REPO, "src", "libparser.h")).read()).group(1)) - 1
+    except Exception:  # noqa
+        limit = 4000
+    base_name = "n" * (limit - 1)
+    ln_xml = ('<?xml version="1.0" encoding="utf-8"?><nta><declaration>int[0,7] %sa; int[0,8] %s;</declaration><template><name>T</name>'
+              '<location id="id0"><name>S</name></location><init ref="id0"/></template><system>system T;</system></nta>' % (base_name, base_name))
+    lq = ["E<> %sa >= 0" % base_name, "E<> %s >= 0" % base_name, "E<> %sab >= 0" % base_name, "E<> %saab >= 0" % base_name, "E<> %sb >= 0" % base_name]
+    lexp = [("ID", base_name + "a", 7), ("ID", base_name, 8), ("LONG",), ("LONG",), ("ID", base_name + "b", None)]
+    models.append(({"globals": [], "templates": [], "system": [], "processes": [], "chains": [], "xml": ln_xml}, Gen(r)))
+    qmeta["q%d" % (len(models) - 1)] = (lq, lexp)
+    qcases.append(("q%d" % (len(models) - 1), ln_xml, "\n".join(lq)))
+    cov["identifier_length_limit"] = limit
     qtext = "".join("%s %s %s\n" % (cid, base64.b64encode(x.encode()).decode(), base64.b64encode(q.encode()).decode()) for cid, x, q in qcases)
     rc, out, err, _ = core.run_exe(exe07, ["batch"], stdin_text=qtext, timeout=900, env=C08.ABORT_ENV)
     if rc != 0:
@@ -589,6 +631,9 @@ def run(ctx):
                     km = KRE.search(ids[0]) if ids else None
                     if not km or int(km.group(1)) != e[2]:
                         qdis.append((cid, q, "expected global int[0,%d], got %s" % (e[2], toks)))
+            elif e[0] == "LONG":
+                if not [t for t in toks if t.startswith("ERR:")]:
+                    qdis.append((cid, q[:40] + "..." + q[-20:], "an identifier longer than the limit is accepted without a diagnostic: %s" % [t[:60] for t in toks]))
             elif e[0] == "IDTYPES":
                 got = [t.split(":", 2)[2] for t in toks if t.startswith("ID:%s:" % e[1])]
                 nq_clean += 1
@@ -613,7 +658,7 @@ def run(ctx):
     if qdis:
         cid, q, what = qdis[0]
         i = int(cid[1:])
-        ctx.finding("query:" + ("process-member" if "." in q.split()[1] else "identifier"), "query %r: %s (%d of %d)" % (q, what, len(qdis), nq),
+        ctx.finding("query:" + ("long-identifier" if "longer than the limit" in what else "process-member" if "." in q.split()[1] else "identifier"), "query %r: %s (%d of %d)" % (q, what, len(qdis), nq),
                     {"format": "xml", "input_b64": base64.b64encode((models[i][0].get("xml") or render_xml(models[i][0])).encode()).decode(), "query": q,
                      "observed": what})
     cov["evaluations"] = n_uses + nq
